@@ -465,7 +465,11 @@ func (w *World) DrawAction(rt *rapid.T, p *Profile) (Action, string) {
 		}
 		n := rapid.IntRange(1, minInt(3, room)).Draw(rt, "n")
 		grow := int64(len(asg.Instances)+n) > asg.Desired
-		return Action{Op: "launch", Group: g, N: n, Flag: grow, Ages: []int64{int64(rapid.IntRange(0, 600).Draw(rt, "age"))}}, "launch"
+		age := int64(0)
+		if rapid.Bool().Draw(rt, "aged") {
+			age = int64(rapid.IntRange(0, 600).Draw(rt, "age"))
+		}
+		return Action{Op: "launch", Group: g, N: n, Flag: grow, Ages: []int64{age}}, "launch"
 	case "reconcile":
 		return Action{Op: "reconcile", Group: g}, "reconcile"
 	case "register":
@@ -555,6 +559,64 @@ func (w *World) DrawAction(rt *rapid.T, p *Profile) (Action, string) {
 		}
 	case "restart":
 		return Action{Op: "restart"}, "restart"
+	case "clearPods":
+		return Action{Op: "clearPods", Group: g}, "clearPods"
+	case "zeroOut":
+		return Action{Op: "zeroOut", Group: g}, "zeroOut"
+	case "noProvNode": // a node that registered before the cloud controller set its provider id
+		return Action{Op: "oddNode", Group: g, Key: "emptyprov", N: rapid.IntRange(0, 60).Draw(rt, "age")}, "noProvNode"
+	case "lateBind": // pods wait, a node comes up for them, they are bound to it (pods older than their node)
+		via := "selector"
+		if w.Cfg.Groups[g].Opts.Name == controller.DefaultNodeGroup {
+			via = "none"
+		}
+		return Action{Op: "seq", Seq: []Action{
+			{Op: "addPods", Group: g, Pods: []PodSpec{{Group: g, Via: via, CPU: int64(rapid.IntRange(1, 500).Draw(rt, "cpu")), Mem: 1_000_000}}},
+			{Op: "advance", D: time.Duration(rapid.IntRange(1, 5).Draw(rt, "wait")) * time.Second},
+			{Op: "launch", Group: g, N: 1, Ages: []int64{0}, Flag: true},
+			{Op: "schedule", Group: g, N: 3, M: rapid.IntRange(0, 7).Draw(rt, "offset")},
+		}}, "lateBind"
+	case "staleWindow": // informer lag: a scan, then something changes on a tainted node in the API only, time passes, a scan on the old cache
+		var tainted []string
+		for _, name := range w.GroupNodeNames(g) {
+			if _, ok := ref.HasTaint(w.K.Nodes[name], ref.TaintKey); ok {
+				tainted = append(tainted, name)
+			}
+		}
+		if len(tainted) > 0 {
+			x := rapid.SampledFrom(tainted).Draw(rt, "node")
+			var change Action
+			switch rapid.SampledFrom([]string{"untaint", "cordon", "annotate", "kill", "foreignTaint"}).Draw(rt, "change") {
+			case "untaint":
+				change = Action{Op: "untaint", Node: x, Key: ref.TaintKey}
+			case "cordon":
+				change = Action{Op: "cordon", Node: x, Flag: true}
+			case "annotate":
+				change = Action{Op: "annotate", Node: x, Val: "keep"}
+			case "kill":
+				change = Action{Op: "killNode", Node: x}
+			default:
+				change = Action{Op: "taint", Node: x, Key: "dedicated", Val: "x", Effect: "NoSchedule", Flag: true}
+			}
+			seq := []Action{{Op: "scan", Flag: true}, change}
+			if tt := w.timeTargets(); len(tt) > 0 {
+				seq = append(seq, Action{Op: "advance", D: rapid.SampledFrom(tt).Draw(rt, "d")})
+			}
+			seq = append(seq, Action{Op: "scan", Flag: false})
+			return Action{Op: "seq", Seq: seq}, "staleWindow"
+		}
+	case "starveAfterScaleUp": // capacity that was requested arrives, the cool-down ends, a pod too big for any free slot is pending
+		via := "selector"
+		if w.Cfg.Groups[g].Opts.Name == controller.DefaultNodeGroup {
+			via = "none"
+		}
+		cd := w.Cfg.Groups[g].Opts.ScaleUpCoolDownPeriodDuration()
+		return Action{Op: "seq", Seq: []Action{
+			{Op: "reconcile", Group: g}, {Op: "register", Group: g},
+			{Op: "advance", D: cd + time.Second},
+			{Op: "addPods", Group: g, Pods: []PodSpec{{Group: g, Via: via, CPU: w.Cfg.Groups[g].NodeCPU - int64(rapid.IntRange(0, 100).Draw(rt, "slack")), Mem: 1_000_000}}},
+			{Op: "scan", Flag: true},
+		}}, "starveAfterScaleUp"
 	case "forceBusy": // an operator force-taints a node that (still) runs a pod of the group
 		names := w.GroupNodeNames(g)
 		if len(names) > 0 {
